@@ -7,11 +7,6 @@ namespace Pdb.MultiTree
 set_option linter.unusedSectionVars false
 variable {K D : Type} [DecidableEq K]
 
-inductive Op (K D : Type) where
-  | insert (k : K) (t : NewNode D)
-  | reference (k : K)
-  | dereference (k : K)
-
 def applyOp (v : Variant) (h : Heap K D) : Op K D → Except Err (Heap K D)
   | .insert k t => insertTree v h k t
   | .reference k => referenceTree v h k
